@@ -1,0 +1,74 @@
+//go:build verif
+
+package fmtforward
+
+// Contracts for the deductive checks in /verif (comment-only; see /verif/DESIGN.md).
+
+/*@
+-- C14. The format string is built by a strings.Builder; its methods are given assumed contracts that
+-- run a ghost parser of fmt's directive grammar  '%' flags* width? ('.' precision?)? verb  over what is
+-- written: fstage is the grammar stage (0 nothing, 1 after '%'/flags, 2 after width, 3 after '.', 4 after
+-- precision, 5 after the verb), e* record what was emitted. That fmt's own parser reads such a string back
+-- into the same flags/width/precision/verb is the assumed contract on the dependency.
+ghostvar fstage int
+ghostvar eplus bool
+ghostvar eminus bool
+ghostvar esharp bool
+ghostvar espace bool
+ghostvar ezero bool
+ghostvar ehasw bool
+ghostvar ew int
+ghostvar ehasp bool
+ghostvar ep int
+ghostvar everb int
+-- the number rendered by the most recent strconv.Itoa (its result is what WriteString is given)
+ghostvar glastn int
+-- what the State reported
+ghostvar gw int
+ghostvar gwp bool
+ghostvar gp int
+ghostvar gpp bool
+
+assume pure func (s fmt.State) Flag(c int) bool
+
+assume func (s fmt.State) Width() (wid int, ok bool)
+
+assume func (s fmt.State) Precision() (prec int, ok bool)
+
+assume func strconv.Itoa(n int) (r string)
+  modifies glastn
+  ensures glastn == n
+
+assume func (b *strings.Builder) WriteByte(c byte) (err error)
+  requires [C14] (fstage == 0 ==> c == 37) && (fstage == 1 ==> (c == 43 || c == 45 || c == 35 || c == 32 || c == 48 || c == 46)) && (fstage == 2 ==> c == 46) && fstage <= 2
+  modifies fstage, eplus, eminus, esharp, espace, ezero, ehasp, ep
+  ensures old(fstage) == 0 ==> fstage == 1 && eplus == old(eplus) && eminus == old(eminus) && esharp == old(esharp) && espace == old(espace) && ezero == old(ezero) && ehasp == old(ehasp) && ep == old(ep)
+  ensures old(fstage) >= 1 && c != 46 ==> fstage == 1 && eplus == (old(eplus) || c == 43) && eminus == (old(eminus) || c == 45) && esharp == (old(esharp) || c == 35) && espace == (old(espace) || c == 32) && ezero == (old(ezero) || c == 48) && ehasp == old(ehasp) && ep == old(ep)
+  ensures old(fstage) >= 1 && c == 46 ==> fstage == 3 && ehasp && ep == 0 && eplus == old(eplus) && eminus == old(eminus) && esharp == old(esharp) && espace == old(espace) && ezero == old(ezero)
+
+assume func (b *strings.Builder) WriteString(s string) (n int, err error)
+  requires [C14] fstage == 1 || fstage == 3
+  modifies fstage, ehasw, ew, ep
+  ensures old(fstage) == 1 ==> fstage == 2 && ehasw && ew == glastn && ep == old(ep)
+  ensures old(fstage) == 3 ==> fstage == 4 && ep == glastn && ehasw == old(ehasw) && ew == old(ew)
+
+assume func (b *strings.Builder) WriteRune(r rune) (n int, err error)
+  requires [C14] fstage >= 1 && fstage <= 4
+  modifies fstage, everb
+  ensures fstage == 5 && everb == r
+
+assume func (b *strings.Builder) String() (s string)
+
+func MakeFormat(s fmt.State, verb rune) (justV bool, format string)
+  requires [C14] fstage == 0 && !eplus && !eminus && !esharp && !espace && !ezero && !ehasw && !ehasp
+  modifies fstage, eplus, eminus, esharp, espace, ezero, ehasw, ew, ehasp, ep, everb, glastn, gw, gwp, gp, gpp
+  ghost gw = w after "w, wp := s.Width()"
+  ghost gwp = wp after "w, wp := s.Width()"
+  ghost gp = p after "p, pp := s.Precision()"
+  ghost gpp = pp after "p, pp := s.Precision()"
+  ensures [C14] justV <==> (!s.Flag(43) && !s.Flag(45) && !s.Flag(35) && !s.Flag(32) && !s.Flag(48) && !gwp && !gpp && verb == 118)
+  ensures [C14] justV ==> len(format) == 2 && format[0] == 37 && format[1] == 118
+  ensures [C14] !justV && !s.Flag(43) && !s.Flag(45) && !s.Flag(35) && !s.Flag(32) && !s.Flag(48) && !gwp && !gpp && verb == 115 ==> len(format) == 2 && format[0] == 37 && format[1] == 115
+  ensures [C14] !justV && !s.Flag(43) && !s.Flag(45) && !s.Flag(35) && !s.Flag(32) && !s.Flag(48) && !gwp && !gpp && verb == 100 ==> len(format) == 2 && format[0] == 37 && format[1] == 100
+  ensures [C14] !justV && !(!s.Flag(43) && !s.Flag(45) && !s.Flag(35) && !s.Flag(32) && !s.Flag(48) && !gwp && !gpp && (verb == 115 || verb == 100)) ==> fstage == 5 && everb == verb && eplus == s.Flag(43) && eminus == s.Flag(45) && esharp == s.Flag(35) && espace == s.Flag(32) && ezero == s.Flag(48) && ehasw == gwp && (gwp ==> ew == gw) && ehasp == gpp && (gpp ==> ep == gp)
+@*/
